@@ -1368,6 +1368,12 @@ def check(prop, tier):
                                'label': None, 'props': [prop], 'spans': [], 'src': None, 'rendered': wit['failed'][0]['output']})
     for k, f in knowns:
         print('KNOWN-FINDING: property=%s %s (%s %s %s)' % (prop, k.get('what', ''), f['unit'], f['fn'], f['key']))
+    seen_kf = set()
+    for e in list(extra) + ([{'known_findings': [{'id': k['finding'].get('id'), 'what': k['finding'].get('what'), 'test': k['test']} for k in (wit or {}).get('known', [])]}] if wit else []):
+        for kf_ in e.get('known_findings', []) or []:
+            if kf_.get('id') not in seen_kf:
+                seen_kf.add(kf_.get('id'))
+                print('KNOWN-FINDING: property=%s %s (scenario %s)' % (prop, kf_.get('what', ''), kf_.get('test')))
     if violations:
         rc = 1
         for n, f in enumerate(violations):
